@@ -12,6 +12,8 @@ import (
 	"os"
 	"path/filepath"
 	"regexp"
+	"sort"
+	"strconv"
 	"strings"
 	"time"
 
@@ -138,5 +140,66 @@ func emitBuildFiles(o *hx.Out, tmp, gen string) {
 		}
 		o.Emit(fmt.Sprintf("c13 bfile %s # package main: main.go + %s; gozodgen failed", c.kind, c.file), obs)
 		o.Count("bfile:" + obs)
+	}
+}
+
+// ---------------------------------------------------------------------------------------------
+// regen (round 4c): gozodgen run a SECOND time on a package that already holds the files it generated — the normal
+// `go generate` workflow. The files written by the second run must be the files of the first (up to the timestamp comment).
+//
+//	c13 regen <case>        same | differ:<file> | exit:<n>
+var regenTS = regexp.MustCompile(`(?m)^// Generated at: .*$`)
+
+func emitRegen(o *hx.Out, tmp, gen string) {
+	cases := []struct{ name, src string }{
+		{"narrow-ints", "type R struct {\n\tA int8 `gozod:\"min=3\"`\n\tB uint16 `gozod:\"max=9\"`\n\tC uint64 `gozod:\"gt=1,required\"`\n\tD *int16 `gozod:\"positive\"`\n}\n"},
+		{"basic", "type R struct {\n\tA string `gozod:\"min=2,email\"`\n\tB int `gozod:\"min=1,max=5\"`\n\tC float64 `gozod:\"gt=0.5\"`\n\tD bool `gozod:\"required\"`\n}\n"},
+		{"containers", "type In struct {\n\tN int32 `gozod:\"min=1\"`\n}\n\ntype R struct {\n\tA []uint8 `gozod:\"min=1\"`\n\tB map[string]int8 `gozod:\"max=3\"`\n\tC *In `gozod:\"required\"`\n\tD []In `gozod:\"nonempty\"`\n}\n"},
+		{"named", "type Level uint8\n\ntype R struct {\n\tA Level `gozod:\"required\"`\n\tB []Level `gozod:\"min=1\"`\n\tC float32 `gozod:\"lte=2.5\"`\n}\n"},
+	}
+	for i, c := range cases {
+		dir := filepath.Join(tmp, "regen", strconv.Itoa(i))
+		os.MkdirAll(dir, 0o755)
+		os.WriteFile(filepath.Join(dir, "m.go"), []byte("package main\n\nfunc main() {}\n\n"+c.src), 0o644)
+		read := func() map[string]string {
+			res := map[string]string{}
+			es, _ := os.ReadDir(dir)
+			for _, e := range es {
+				if strings.HasSuffix(e.Name(), "_gen.go") {
+					b, _ := os.ReadFile(filepath.Join(dir, e.Name()))
+					res[e.Name()] = regenTS.ReplaceAllString(string(b), "")
+				}
+			}
+			return res
+		}
+		obs := "same"
+		var first map[string]string
+		for run := 0; run < 2 && obs == "same"; run++ {
+			if _, rc, to := goRun(tmp, 2*time.Minute, gen, dir); rc != 0 || to {
+				obs = fmt.Sprintf("exit:%d", rc)
+				break
+			}
+			if run == 0 {
+				first = read()
+				continue
+			}
+			second := read()
+			var names []string
+			for n := range first {
+				names = append(names, n)
+			}
+			sort.Strings(names)
+			for _, n := range names {
+				if second[n] != first[n] {
+					obs = "differ:" + n
+					break
+				}
+			}
+			if obs == "same" && len(second) != len(first) {
+				obs = "differ:file-set"
+			}
+		}
+		o.Emit(fmt.Sprintf("c13 regen %s # package main: %s ; gozodgen twice on the directory", c.name, strings.ReplaceAll(c.src, "\n", " ")), obs)
+		o.Count("regen:" + strings.SplitN(obs, ":", 2)[0])
 	}
 }
